@@ -98,6 +98,19 @@ def run_peer(ctx, p, steps, max_pdu=16382):
                 break
             if not ok:
                 seen.append("send-failed")
+        elif do == "flood":
+            # keep writing the same PDU for a while (a peer that ignores what it is told and keeps the provider's
+            # receive path busy); stops when the connection is gone
+            data = build(st, max_pdu)
+            sent = 0
+            for _k in range(st["n"]):
+                if p.sock is None or p.sock._closed or not p.send(data):
+                    break
+                sent += 1
+                ctx.sleep(st["gap"])
+            sim.record("peer_flood", i=i, pdu=st["pdu"], sent=sent)
+            sim.count("fault.pdu_flood")
+            seen.append("flooded:%d" % sent)
         elif do == "sleep":
             ctx.sleep(st["d"])
         elif do == "recv":
@@ -139,6 +152,14 @@ def execute(sc, ctx, handlers=None, configure=None):
         def h(event):
             sim.record("handler", op=name, assoc=ctx.label(event.assoc), ctx_id=event.context.context_id)
             invoked.append(name)
+            act = aecfg.get("echo_act") if name == "echo" else None
+            if act:
+                # the handler itself ends the association (non-blocking abort / release from pynetdicom's own thread)
+                sim.record("handler_act", op=name, act=act)
+                sim.count("fault.handler_act")
+                if aecfg.get("echo_act_sleep"):
+                    ctx.sleep(aecfg["echo_act_sleep"])
+                getattr(event.assoc, act)()
             return ret
         return h
 
@@ -157,6 +178,15 @@ def execute(sc, ctx, handlers=None, configure=None):
         configure(ae)
     max_to = max(aecfg["acse"], aecfg["dimse"], aecfg["network"], aecfg.get("connection") or 0)
     ctx.obs["max_timeout"] = max_to
+    for st in sc.get("stalls", []):
+        def mkstall(st=st):
+            def fire():
+                t = ctx.task_by_role(st["role"])
+                if t is not None and t.state != "done":
+                    sim.stall(t, st["dur"])
+                    sim.record("stall", role=st["role"], dur=st["dur"])
+            return fire
+        sim.at(st["at"], mkstall())
     if sc["role"] == "acceptor":
         ae.add_supported_context(Verification)
         ae.add_supported_context(C.CT, [C.IVLE, C.EVLE])
